@@ -1,5 +1,7 @@
 import WV.Model.Basic
 import WV.Gen.Skel
+import WV.Gen.T_SubChannel
+import WV.Gen.Flags
 
 /-!
 C10 — Dilation L3/L4 reliability layer (the ARQ): every Open/Data/Close built by one side is
@@ -27,7 +29,7 @@ the `budget`-th `send_record` (0 = never), which is how a pause lands in the mid
 loop of `use_connection` / `resumeProducing`.
 -/
 namespace WV.C10
-open WV
+open WV WV.Gen
 
 /-! ## records -/
 
@@ -58,6 +60,130 @@ inductive Err where
 def Err.name : Err → String
   | .assertion => "AssertionError" | .attributeError => "AttributeError" | .illegal => "illegal"
 
+/-! ## L4 on the receiving side: `Inbound.handle_open/data/close`, `SubChannel` before and after it
+gets a protocol, `SubchannelDemultiplex` (listeners registered late)
+
+Every protocol the application builds in this model is an `IHalfCloseableProtocol` that only
+listens (it never writes and never closes), so a dispatched record never makes the receiver write:
+the subchannels stay in `unconnected` / `open_half` / `read_closed`.  The transition table is the
+generated `WV.Gen.SubChannel.table`. -/
+
+/-- what a subchannel's protocol has been told -/
+inductive AppEv where
+  | made                   -- `makeConnection` / `connectionMade`
+  | data (d : Bytes)       -- `dataReceived`
+  | rclosed                -- `readConnectionLost`
+  deriving DecidableEq, Repr
+
+/-- one `SubChannel` object of `Inbound._open_subchannels` -/
+structure Sub where
+  scid : Nat
+  name : Bytes                 -- `_peer_addr.subprotocol`
+  st : SubChannel.State
+  pendData : List Bytes        -- this SubChannel's own `_pending_remote_data`
+  pendClose : Bool             -- `_pending_remote_close`
+  shown : List AppEv           -- calls made on this subchannel's protocol, in order
+  deriving DecidableEq, Repr
+
+structure L4 where
+  subs : List Sub                  -- `_open_subchannels`, insertion order
+  factories : List Bytes           -- `SubchannelDemultiplex._factories` (names listened for)
+  pendOpens : List (Bytes × Nat)   -- `_pending_opens` (name, scid), arrival order
+  fault : Bool                     -- an Automat `NoTransition` left `got_record`
+  deriving DecidableEq, Repr
+
+def L4.init : L4 := { subs := [], factories := [], pendOpens := [], fault := false }
+
+/-- one `@m.output` of SubChannel (only those a listening half-closeable protocol can reach have an effect) -/
+def runOut (arg : Bytes) (s : Sub) : SubChannel.Output → Sub
+  | .queue_remote_data => { s with pendData := s.pendData ++ [arg] }
+  | .queue_remote_close => { s with pendClose := true }
+  | .signal_dataReceived => { s with shown := s.shown ++ [.data arg] }
+  | .signal_readConnectionLost => { s with shown := s.shown ++ [.rclosed] }
+  | _ => s
+
+/-- an Automat input of one SubChannel; `none` = `NoTransition` -/
+def subInput (s : Sub) (i : SubChannel.Input) (arg : Bytes) : Option Sub :=
+  match SubChannel.table s.st i with
+  | none => none
+  | some (st', outs) => some (outs.foldl (runOut arg) { s with st := st' })
+
+/-- `for data in self._pending_remote_data: self.remote_data(data)` -/
+def replayData : Sub → List Bytes → Option Sub
+  | s, [] => some s
+  | s, d :: ds => match subInput s .remote_data d with
+    | none => none
+    | some s' => replayData s' ds
+
+/-- `SubchannelDemultiplex._connect`: `buildProtocol`, `t._set_protocol(p)`, `p.makeConnection(t)`,
+    `t._deliver_queued_data()` -/
+def connectSub (s : Sub) : Option Sub :=
+  match subInput s .connect_protocol_half [] with
+  | none => none
+  | some s1 =>
+    match replayData { s1 with shown := s1.shown ++ [.made] } s1.pendData with
+    | none => none
+    | some s3 =>
+      let s4 := { s3 with pendData := [] }                      -- del self._pending_remote_data
+      if s4.pendClose then
+        (subInput s4 .remote_close []).map fun s5 => { s5 with pendClose := false }
+      else some s4
+
+def findSub (c : Nat) : List Sub → Option Sub
+  | [] => none
+  | s :: rest => if s.scid = c then some s else findSub c rest
+
+/-- apply `f` to the subchannel with id `c`; `none` = `f` raised -/
+def updSub (c : Nat) (f : Sub → Option Sub) : List Sub → Option (List Sub)
+  | [] => some []
+  | s :: rest =>
+    if s.scid = c then (f s).map (· :: rest)
+    else (updSub c f rest).map (s :: ·)
+
+def L4.upd (t : L4) (c : Nat) (f : Sub → Option Sub) : L4 :=
+  match updSub c f t.subs with
+  | some subs' => { t with subs := subs' }
+  | none => { t with fault := true }
+
+/-- `Inbound.handle_open` + `SubchannelDemultiplex._got_open` -/
+def handleOpen (t : L4) (c : Nat) (name : Bytes) : L4 :=
+  match findSub c t.subs with
+  | some _ => t                                               -- DuplicateOpenError is logged
+  | none =>
+    let sub : Sub := { scid := c, name := name, st := SubChannel.init, pendData := [], pendClose := false, shown := [] }
+    let t1 := { t with subs := t.subs ++ [sub] }
+    if t1.factories.contains name then t1.upd c connectSub
+    else { t1 with pendOpens := t1.pendOpens ++ [(name, c)] }
+
+/-- `Inbound.handle_data` -/
+def handleData (t : L4) (c : Nat) (d : Bytes) : L4 :=
+  match findSub c t.subs with
+  | none => t                                                 -- DataForMissingSubchannelError is logged
+  | some _ => t.upd c (fun s => subInput s .remote_data d)
+
+/-- `Inbound.handle_close` -/
+def handleClose (t : L4) (c : Nat) : L4 :=
+  match findSub c t.subs with
+  | none => t                                                 -- CloseForMissingSubchannelError is logged
+  | some _ => t.upd c (fun s => subInput s .remote_close [])
+
+/-- the tail of `Manager.got_record` for a record that is not old -/
+def l4Dispatch (t : L4) (r : Rec) : L4 :=
+  match r.body with
+  | .opn c name => handleOpen t c name
+  | .data c d => handleData t c d
+  | .close c => handleClose t c
+
+/-- `SubchannelDemultiplex.register(name, factory)`: the pending OPENs of that name, oldest first -/
+def connectPending (name : Bytes) : L4 → List (Bytes × Nat) → L4
+  | t, [] => t
+  | t, (n, c) :: rest => if n = name then connectPending name (t.upd c connectSub) rest else connectPending name t rest
+
+def l4Listen (t : L4) (name : Bytes) : L4 :=
+  let t1 := { t with factories := t.factories ++ [name],
+                     pendOpens := t.pendOpens.filter (fun p => p.1 != name) }
+  connectPending name t1 t.pendOpens
+
 /-! ## one side -/
 
 structure Side where
@@ -70,16 +196,19 @@ structure Side where
   -- the fake L2 connection
   out : List Wire           -- handed to `send_record`, not yet read by the peer
   budget : Nat              -- transport pauses us inside the `budget`-th `send_record` from now (0 = never)
+  -- the new L2 connection between its KCM and the Connector's `select()` turn
+  parked : List Wire        -- `DilatedConnectionProtocol._inbound_record_queue`
   -- Inbound
   high : Int                -- `_highest_inbound_acked`
   dispatched : List Rec     -- every record `handle_open/handle_data/handle_close` was called for, in order
+  l4 : L4                   -- subchannels, listeners
   -- ghost
   built : List Rec          -- every record `build_record` ever returned, in order
   deriving DecidableEq, Repr
 
 def Side.init : Side :=
   { queue := [], unsent := [], next := 0, conn := false, paused := true, out := [], budget := 0,
-    high := -1, dispatched := [], built := [] }
+    parked := [], high := -1, dispatched := [], l4 := L4.init, built := [] }
 
 /-- `Outbound.pauseProducing` (this model registers no subchannel producers: that is C15) -/
 def pauseProducing (s : Side) : Side :=
@@ -152,8 +281,18 @@ def gotRecord (s : Side) : Wire → Side
     if isRecordOld s1 r then s1
     else
       let s2 := updateAckWatermark s1 r.seqnum
-      { s2 with dispatched := s2.dispatched ++ [r] }   -- handle_open / handle_data / handle_close
+      { s2 with dispatched := s2.dispatched ++ [r],    -- handle_open / handle_data / handle_close
+                l4 := l4Dispatch s2.l4 r }
   | .ack resp => handleAck s resp
+
+/-- `DilatedConnectionProtocol.process_inbound_queue`, run by `select(manager)`:
+    `while queue: r = queue.pop(0); manager.got_record(r)` — oldest first -/
+def processInboundQueue : Side → List Wire → Side
+  | s, [] => { s with parked := [] }
+  | s, m :: rest => processInboundQueue (gotRecord { s with parked := rest } m) rest
+
+/-- `SubchannelListenerEndpoint.listen(factory)` once the main channel has fired -/
+def listen (s : Side) (name : Bytes) : Side := { s with l4 := l4Listen s.l4 name }
 
 /-! ## the two-sided world and its schedules -/
 
@@ -172,6 +311,8 @@ inductive Act where
   | pause                   -- the transport calls `pauseProducing()`
   | resume (budget : Nat)   -- the transport calls `resumeProducing()`
   | deliver                 -- the oldest record in flight from the peer reaches `got_record`
+  | park                    -- …reaches our new, not yet selected, L2 connection and is queued there
+  | listen (name : Bytes)   -- the application registers its listener for a subprotocol
   deriving DecidableEq, Repr
 
 inductive Who where
@@ -188,23 +329,36 @@ def enabledA (w : World) : Act → Bool
   | .lose => w.a.conn
   | .pause => w.a.conn
   | .resume _ => w.a.conn
-  | .deliver => !w.b.out.isEmpty
+  | .deliver => !w.b.out.isEmpty && w.a.parked.isEmpty
+  | .park => !w.a.conn && !w.b.out.isEmpty
+  | .listen n => !w.a.l4.factories.contains n
 
 /-- an act of side `a` (the peer is `b`) -/
 def stepA (w : World) : Act → Except Err World
   | .write b => .ok { w with a := write w.a b }
   | .use k =>
     if w.a.conn then .error .illegal
-    else (useConnection w.a k).map fun a' => { w with a := a' }
+    else (useConnection (processInboundQueue w.a w.a.parked) k).map fun a' => { w with a := a' }
+      -- Connector.select_and_stop_remaining: c.select(manager) drains the parked records, then
+      -- manager.connector_connection_made(c)
   | .lose => (stopUsingConnection w.a).map fun a' => { w with a := a' }
   | .pause =>
     if w.a.conn then .ok { w with a := pauseProducing w.a } else .error .illegal
   | .resume k =>
     if w.a.conn then .ok { w with a := resumeProducing { w.a with budget := k } } else .error .illegal
   | .deliver =>
+    if w.a.parked ≠ [] then .error .illegal else
     match w.b.out with
     | [] => .error .illegal
     | m :: rest => .ok { a := gotRecord w.a m, b := { w.b with out := rest } }
+  | .park =>
+    if w.a.conn then .error .illegal else
+    match w.b.out with
+    | [] => .error .illegal
+    | m :: rest => .ok { a := { w.a with parked := w.a.parked ++ [m] }, b := { w.b with out := rest } }
+  | .listen n =>
+    if w.a.l4.factories.contains n then .error .illegal      -- ValueError: already listening
+    else .ok { w with a := listen w.a n }
 
 def step (w : World) : Event → Except Err World
   | (.A, act) => stepA w act
@@ -252,19 +406,31 @@ def skel_connection_made : List (String × String) :=
 def skel_stop_using : List (String × String) :=
   [("if", "_timer.cancel"), ("-", "_inbound.stop_using_connection"), ("-", "_outbound.stop_using_connection")]
 
+def skel_process_inbound_queue : List (String × String) := [("while", "_manager.got_record")]
+def skel_deliver_queued_data : List (String × String) := [("for", "self.remote_data"), ("if", "self.remote_close")]
+def skel_handle_open : List (String × String) :=
+  [("if", "DuplicateOpenError"), ("-", "SubchannelAddress"), ("-", "SubChannel"),
+   ("try", "_manager._subprotocol_factories._got_open"), ("except", "_manager.send_close")]
+
 /-! ## driver (line protocol)
 
 ```
 write <A|B> open <scid> <subhex> | write <A|B> data <scid> <hex> | write <A|B> close <scid>
-use <A|B> <budget> | lose <A|B> | pause <A|B> | resume <A|B> <budget> | deliver <A|B>
+use <A|B> <budget> | lose <A|B> | pause <A|B> | resume <A|B> <budget> | deliver <A|B> | park <A|B>
+listen <A|B> <namehex>
 ```
 Every line answers `<ok|delivered record|exception> A{…} B{…}` with the full state of both sides.
 -/
 
+/-- payloads longer than 40 bytes travel in the answer lines as length, byte sum, first and last four bytes -/
+def showBytes (b : Bytes) : String :=
+  if b.length ≤ 40 then toHex b
+  else s!"#{b.length}.{b.foldl (· + ·) 0}.{toHex (b.take 4)}.{toHex (b.drop (b.length - 4))}"
+
 def showRec (r : Rec) : String :=
   match r.body with
   | .opn c sub => s!"open:{r.seqnum}:{c}:{toHex sub}"
-  | .data c d => s!"data:{r.seqnum}:{c}:{toHex d}"
+  | .data c d => s!"data:{r.seqnum}:{c}:{showBytes d}"
   | .close c => s!"close:{r.seqnum}:{c}"
 
 def showWire : Wire → String
@@ -273,8 +439,16 @@ def showWire : Wire → String
 
 def bit (b : Bool) : String := if b then "1" else "0"
 
+def showEv : AppEv → String
+  | .made => "o"
+  | .data d => "d" ++ showBytes d
+  | .rclosed => "c"
+
+def showSub (s : Sub) : String :=
+  s!"{s.scid}/{toHex s.name}/{SubChannel.State.name s.st}/{",".intercalate (s.shown.map showEv)}/{",".intercalate (s.pendData.map showBytes)}/{bit s.pendClose}"
+
 def showSide (s : Side) : String :=
-  s!"q=[{showNats (s.queue.map (·.seqnum))}] u=[{showNats (s.unsent.map (·.seqnum))}] n={s.next} c={bit s.conn} p={bit s.paused} bud={if s.conn then s.budget else 0} out=[{" ".intercalate (s.out.map showWire)}] h={s.high} disp=[{" ".intercalate (s.dispatched.map showRec)}]"
+  s!"q=[{showNats (s.queue.map (·.seqnum))}] u=[{showNats (s.unsent.map (·.seqnum))}] n={s.next} c={bit s.conn} p={bit s.paused} bud={if s.conn then s.budget else 0} out=[{" ".intercalate (s.out.map showWire)}] park=[{" ".intercalate (s.parked.map showWire)}] h={s.high} disp=[{" ".intercalate (s.dispatched.map showRec)}] f=[{" ".intercalate (s.l4.factories.map toHex)}] subs=[{" ".intercalate (s.l4.subs.map showSub)}]"
 
 def showWorld (w : World) : String := "A{" ++ showSide w.a ++ "} B{" ++ showSide w.b ++ "}"
 
@@ -290,12 +464,16 @@ def readEvent? : List String → Option Event
   | ["pause", x] => do pure (← readWho? x, .pause)
   | ["resume", x, k] => do pure (← readWho? x, .resume (← k.toNat?))
   | ["deliver", x] => do pure (← readWho? x, .deliver)
+  | ["park", x] => do pure (← readWho? x, .park)
+  | ["listen", x, h] => do pure (← readWho? x, .listen (← fromHex? h))
   | _ => none
 
 /-- head of the channel the event reads, for the answer line of `deliver` -/
 def deliveredOf (w : World) : Event → String
   | (.A, .deliver) => match w.b.out with | m :: _ => showWire m | [] => "ok"
   | (.B, .deliver) => match w.a.out with | m :: _ => showWire m | [] => "ok"
+  | (.A, .park) => match w.b.out with | m :: _ => showWire m | [] => "ok"
+  | (.B, .park) => match w.a.out with | m :: _ => showWire m | [] => "ok"
   | _ => "ok"
 
 def drvStep (w : World) (line : String) : World × String :=
@@ -306,7 +484,10 @@ def drvStep (w : World) (line : String) : World × String :=
     | none => (w, "bad-op")
     | some e =>
       match step w e with
-      | .ok w' => (w', deliveredOf w e ++ " " ++ showWorld w')
+      | .ok w' =>
+        -- an Automat NoTransition inside got_record / select(): the real call raises
+        if (w'.a.l4.fault && !w.a.l4.fault) || (w'.b.l4.fault && !w.b.l4.fault) then (w', "NoTransition")
+        else (w', deliveredOf w e ++ " " ++ showWorld w')
       | .error x => (w, x.name)
 
 def driver (lines : List String) : List String := runLines drvStep World.init lines
